@@ -1,7 +1,12 @@
 import AasVerif.Lemmas.InferCases
+import AasVerif.Model.Expr.TypeMap
 /-!
-None-safety of the inferrer for the whole expression language, by mutual structural
-recursion over the expression (the fact set is an invariant of the traversal).
+Soundness of the inferrer for the whole expression language, by mutual structural recursion
+over the expression (the fact set is an invariant of the traversal): an accepted expression
+evaluates to a value of the inferred type, or raises `IndexError`.
+
+Side conditions (see `Model/Expr/TypeMap.lean`): `e.wf` (`and` / `or` have operands) and no
+function or method is used as a first-class value (`vtypes … |>.all valTy`).
 -/
 namespace AasVerif.Expr
 
@@ -9,38 +14,68 @@ variable {κ : Type} [DecidableEq κ]
 
 variable {key : Expr → κ}
 
+theorem valTy_ok {r : Res Ty} {τ : Ty} (h : r = .ok τ) (hv : valTy (resTy r) = true) : τ.isFn = false := by
+  subst h
+  simpa [resTy, valTy] using hv
+
+theorem bind_backend (Γ : TEnv) (x : Text) (τ : Ty) : (Γ.bind x τ).backend = Γ.backend := rfl
+
 mutual
 theorem safe_expr (hk : KeySound key) :
-    ∀ (e : Expr) (Γ : TEnv) (F : Facts κ) (ρ : Env) (τ : Ty), Inv key Γ F ρ →
-      infer key Γ F e = .ok τ → Good Γ.decls (eval ρ e) τ
-  | .member i n, Γ, F, ρ, τ, inv, h =>
-    member_good inv (fun ti hi => safe_expr hk i Γ F ρ ti inv hi) h
-  | .index c i, Γ, F, ρ, τ, inv, h => by
-    exact index_good (fun ti hi => safe_expr hk c Γ F ρ ti inv hi)
-      (fun ti hi => safe_expr hk i Γ F ρ ti inv hi) h
-  | .cmp l op r, Γ, F, ρ, τ, inv, h => by
-    exact cmp_good inv (fun ti hi => safe_expr hk l Γ F ρ ti inv hi)
-      (fun ti hi => safe_expr hk r Γ F ρ ti inv hi) h
-  | .isIn m c, Γ, F, ρ, τ, inv, h => by
-    exact isIn_good inv (fun ti hi => safe_expr hk m Γ F ρ ti inv hi)
-      (fun ti hi => safe_expr hk c Γ F ρ ti inv hi) h
-  | .impl a c, Γ, F, ρ, τ, inv, h => by
-    exact impl_good hk inv (fun ti hi => safe_expr hk a Γ F ρ ti inv hi)
-      (fun ti inv' hi => safe_expr hk c Γ _ ρ ti inv' hi) h
-  | .methodCall i n args, Γ, F, ρ, τ, inv, h => by
-    exact methodCall_good inv (fun ti hi => safe_expr hk i Γ F ρ ti inv hi)
-      (fun ha => safe_args hk args Γ F ρ inv ha) h
-  | .name x, Γ, F, ρ, τ, inv, h => name_good inv h
-  | .funCall n args, Γ, F, ρ, τ, inv, h => by
-    exact funCall_good inv (fun ha => safe_args hk args Γ F ρ inv ha) h
-  | .const c, Γ, F, ρ, τ, _, h => const_good h
-  | .isNone e, Γ, F, ρ, τ, inv, h =>
-    isNone_good (fun ti hi => safe_expr hk e Γ F ρ ti inv hi) h
-  | .isNotNone e, Γ, F, ρ, τ, inv, h =>
-    isNotNone_good (fun ti hi => safe_expr hk e Γ F ρ ti inv hi) h
-  | .not e, Γ, F, ρ, τ, inv, h =>
-    not_good (fun ti hi => safe_expr hk e Γ F ρ ti inv hi) h
-  | .and es, Γ, F, ρ, τ, inv, h => by
+    ∀ (e : Expr) (Γ : TEnv) (F : Facts κ) (ρ : Env) (τ : Ty), Inv key Γ F ρ → Γ.backend = true → e.wf = true →
+      (vtypes key Γ F e).all valTy = true → infer key Γ F e = .ok τ → Good Γ.decls (eval ρ e) τ
+  | .member i n, Γ, F, ρ, τ, inv, hb, hw, hv, h => by
+    simp only [Expr.wf] at hw
+    simp only [vtypes, List.all_cons, Bool.and_eq_true] at hv
+    exact member_good inv (fun ti hi => safe_expr hk i Γ F ρ ti inv hb hw hv.2 hi) (valTy_ok h hv.1) h
+  | .index c i, Γ, F, ρ, τ, inv, hb, hw, hv, h => by
+    simp only [Expr.wf, Bool.and_eq_true] at hw
+    simp only [vtypes, List.all_cons, List.all_append, Bool.and_eq_true] at hv
+    exact index_good (fun ti hi => safe_expr hk c Γ F ρ ti inv hb hw.1 hv.2.1 hi)
+      (fun ti hi => safe_expr hk i Γ F ρ ti inv hb hw.2 hv.2.2 hi) h
+  | .cmp l op r, Γ, F, ρ, τ, inv, hb, hw, hv, h => by
+    simp only [Expr.wf, Bool.and_eq_true] at hw
+    simp only [vtypes, List.all_cons, List.all_append, Bool.and_eq_true] at hv
+    exact cmp_good inv (fun ti hi => safe_expr hk l Γ F ρ ti inv hb hw.1 hv.2.1 hi)
+      (fun ti hi => safe_expr hk r Γ F ρ ti inv hb hw.2 hv.2.2 hi) h
+  | .isIn m c, Γ, F, ρ, τ, inv, hb, hw, hv, h => by
+    simp only [Expr.wf, Bool.and_eq_true] at hw
+    simp only [vtypes, List.all_cons, List.all_append, Bool.and_eq_true] at hv
+    exact isIn_good inv (fun ti hi => safe_expr hk m Γ F ρ ti inv hb hw.1 hv.2.1 hi)
+      (fun ti hi => safe_expr hk c Γ F ρ ti inv hb hw.2 hv.2.2 hi) h
+  | .impl a c, Γ, F, ρ, τ, inv, hb, hw, hv, h => by
+    simp only [Expr.wf, Bool.and_eq_true] at hw
+    simp only [vtypes, List.all_cons, List.all_append, Bool.and_eq_true] at hv
+    exact impl_good hk inv (fun ti hi => safe_expr hk a Γ F ρ ti inv hb hw.1 hv.2.1 hi)
+      (fun ti inv' hi => safe_expr hk c Γ _ ρ ti inv' hb hw.2 hv.2.2 hi) h
+  | .methodCall i n args, Γ, F, ρ, τ, inv, hb, hw, hv, h => by
+    simp only [Expr.wf, Bool.and_eq_true] at hw
+    simp only [vtypes, List.all_cons, List.all_append, Bool.and_eq_true] at hv
+    exact methodCall_good inv (fun ti hi => safe_expr hk i Γ F ρ ti inv hb hw.1 hv.2.1 hi)
+      (fun ts ha => safe_args hk args Γ F ρ inv hb hw.2 hv.2.2 ts ha) h
+  | .name x, Γ, F, ρ, τ, inv, _, _, hv, h => by
+    simp only [vtypes, List.all_cons, Bool.and_eq_true] at hv
+    exact name_good inv (valTy_ok h hv.1) h
+  | .funCall n args, Γ, F, ρ, τ, inv, hb, hw, hv, h => by
+    simp only [Expr.wf] at hw
+    simp only [vtypes, List.all_cons, Bool.and_eq_true] at hv
+    exact funCall_good inv hb (fun ts ha => safe_args hk args Γ F ρ inv hb hw hv.2 ts ha) h
+  | .const c, Γ, F, ρ, τ, _, _, _, _, h => const_good h
+  | .isNone e, Γ, F, ρ, τ, inv, hb, hw, hv, h => by
+    simp only [Expr.wf] at hw
+    simp only [vtypes, List.all_cons, Bool.and_eq_true] at hv
+    exact isNone_good (fun ti hi => safe_expr hk e Γ F ρ ti inv hb hw hv.2 hi) h
+  | .isNotNone e, Γ, F, ρ, τ, inv, hb, hw, hv, h => by
+    simp only [Expr.wf] at hw
+    simp only [vtypes, List.all_cons, Bool.and_eq_true] at hv
+    exact isNotNone_good (fun ti hi => safe_expr hk e Γ F ρ ti inv hb hw hv.2 hi) h
+  | .not e, Γ, F, ρ, τ, inv, hb, hw, hv, h => by
+    simp only [Expr.wf] at hw
+    simp only [vtypes, List.all_cons, Bool.and_eq_true] at hv
+    exact not_good (fun ti hi => safe_expr hk e Γ F ρ ti inv hb hw hv.2 hi) h
+  | .and es, Γ, F, ρ, τ, inv, hb, hw, hv, h => by
+    simp only [Expr.wf, Bool.and_eq_true, Bool.not_eq_true', List.isEmpty_eq_false_iff] at hw
+    simp only [vtypes, List.all_cons, Bool.and_eq_true] at hv
     simp only [infer] at h
     cases ha : inferAnd key Γ F es with
     | err xs => simp [ha] at h
@@ -48,9 +83,11 @@ theorem safe_expr (hk : KeySound key) :
     | ok u =>
       simp only [ha, Res.ok.injEq] at h
       subst h
-      refine good_loose ?_ (by simp [Ty.bool, Ty.isLoose])
-      simpa [eval] using safe_and hk es Γ F ρ inv ha
-  | .or es, Γ, F, ρ, τ, inv, h => by
+      simp only [eval]
+      exact Good.of_boolOrIndex (safe_and hk es Γ F ρ inv hb hw.2 hv.2 hw.1 ha)
+  | .or es, Γ, F, ρ, τ, inv, hb, hw, hv, h => by
+    simp only [Expr.wf, Bool.and_eq_true, Bool.not_eq_true', List.isEmpty_eq_false_iff] at hw
+    simp only [vtypes, List.all_cons, Bool.and_eq_true] at hv
     simp only [infer] at h
     cases ha : inferOr key Γ F es with
     | err xs => simp [ha] at h
@@ -58,15 +95,21 @@ theorem safe_expr (hk : KeySound key) :
     | ok u =>
       simp only [ha, Res.ok.injEq] at h
       subst h
-      refine good_loose ?_ (by simp [Ty.bool, Ty.isLoose])
-      simpa [eval] using safe_or hk es Γ F ρ inv ha
-  | .add l r, Γ, F, ρ, τ, inv, h => by
-    exact add_good inv (fun ti hi => safe_expr hk l Γ F ρ ti inv hi)
-      (fun ti hi => safe_expr hk r Γ F ρ ti inv hi) h
-  | .sub l r, Γ, F, ρ, τ, inv, h => by
-    exact sub_good inv (fun ti hi => safe_expr hk l Γ F ρ ti inv hi)
-      (fun ti hi => safe_expr hk r Γ F ρ ti inv hi) h
-  | .joinedStr ps, Γ, F, ρ, τ, inv, h => by
+      simp only [eval]
+      exact Good.of_boolOrIndex (safe_or hk es Γ F ρ inv hb hw.2 hv.2 hw.1 ha)
+  | .add l r, Γ, F, ρ, τ, inv, hb, hw, hv, h => by
+    simp only [Expr.wf, Bool.and_eq_true] at hw
+    simp only [vtypes, List.all_cons, List.all_append, Bool.and_eq_true] at hv
+    exact add_good inv (fun ti hi => safe_expr hk l Γ F ρ ti inv hb hw.1 hv.2.1 hi)
+      (fun ti hi => safe_expr hk r Γ F ρ ti inv hb hw.2 hv.2.2 hi) h
+  | .sub l r, Γ, F, ρ, τ, inv, hb, hw, hv, h => by
+    simp only [Expr.wf, Bool.and_eq_true] at hw
+    simp only [vtypes, List.all_cons, List.all_append, Bool.and_eq_true] at hv
+    exact sub_good inv (fun ti hi => safe_expr hk l Γ F ρ ti inv hb hw.1 hv.2.1 hi)
+      (fun ti hi => safe_expr hk r Γ F ρ ti inv hb hw.2 hv.2.2 hi) h
+  | .joinedStr ps, Γ, F, ρ, τ, inv, hb, hw, hv, h => by
+    simp only [Expr.wf] at hw
+    simp only [vtypes, List.all_cons, Bool.and_eq_true] at hv
     simp only [infer] at h
     cases ha : inferParts key Γ F ps with
     | err xs => simp [ha] at h
@@ -74,70 +117,101 @@ theorem safe_expr (hk : KeySound key) :
     | ok u =>
       simp only [ha, Res.ok.injEq] at h
       subst h
-      refine good_loose ?_ (by simp [Ty.isLoose])
-      simpa [eval] using safe_parts hk ps Γ F ρ inv ha
-  | .any g c, Γ, F, ρ, τ, inv, h => by
+      simp only [eval]
+      rcases safe_parts hk ps Γ F ρ inv hb hw hv.2 ha with hs | ⟨s, hs⟩
+      · rw [hs]; exact Good.index
+      · rw [hs]; exact Good.val (HasTy.str s)
+  | .any g c, Γ, F, ρ, τ, inv, hb, hw, hv, h => by
+    simp only [Expr.wf, Bool.and_eq_true] at hw
+    simp only [vtypes, List.all_cons, List.all_append, Bool.and_eq_true] at hv
     simp only [infer] at h
     cases hg : inferGen key Γ F g with
     | err xs => simp [hg] at h
     | crash s => simp [hg] at h
     | ok xτ =>
       obtain ⟨x, τx⟩ := xτ
-      simp only [hg] at h
+      simp only [hg] at h hv
       obtain ⟨hc, hτ⟩ := condRes_ok h
-      obtain ⟨hx, hgen⟩ := safe_gen hk g Γ F ρ x τx inv hg
-      exact any_good inv hx hgen
-        (fun item hty => (safe_expr hk c (Γ.bind x τx) F (ρ.bind x item) _ (inv.bind hx hty) hc).1) hτ
-  | .all g c, Γ, F, ρ, τ, inv, h => by
+      subst hτ
+      obtain ⟨hx, hgen⟩ := safe_gen hk g Γ F ρ x τx inv hb hw.1 hv.2.1 hg
+      exact any_good hgen
+        (fun item hty => safe_expr hk c (Γ.bind x τx) F (ρ.bind x item) _ (inv.bind hx hty) hb hw.2 hv.2.2 hc)
+  | .all g c, Γ, F, ρ, τ, inv, hb, hw, hv, h => by
+    simp only [Expr.wf, Bool.and_eq_true] at hw
+    simp only [vtypes, List.all_cons, List.all_append, Bool.and_eq_true] at hv
     simp only [infer] at h
     cases hg : inferGen key Γ F g with
     | err xs => simp [hg] at h
     | crash s => simp [hg] at h
     | ok xτ =>
       obtain ⟨x, τx⟩ := xτ
-      simp only [hg] at h
+      simp only [hg] at h hv
       obtain ⟨hc, hτ⟩ := condRes_ok h
-      obtain ⟨hx, hgen⟩ := safe_gen hk g Γ F ρ x τx inv hg
-      exact all_good inv hx hgen
-        (fun item hty => (safe_expr hk c (Γ.bind x τx) F (ρ.bind x item) _ (inv.bind hx hty) hc).1) hτ
+      subst hτ
+      obtain ⟨hx, hgen⟩ := safe_gen hk g Γ F ρ x τx inv hb hw.1 hv.2.1 hg
+      exact all_good hgen
+        (fun item hty => safe_expr hk c (Γ.bind x τx) F (ρ.bind x item) _ (inv.bind hx hty) hb hw.2 hv.2.2 hc)
 theorem safe_gen (hk : KeySound key) :
-    ∀ (g : Gen) (Γ : TEnv) (F : Facts κ) (ρ : Env) (x : Text) (τx : Ty), Inv key Γ F ρ →
+    ∀ (g : Gen) (Γ : TEnv) (F : Facts κ) (ρ : Env) (x : Text) (τx : Ty), Inv key Γ F ρ → Γ.backend = true →
+      wfGen g = true → (vtypesGen key Γ F g).all valTy = true →
       inferGen key Γ F g = .ok (x, τx) → Γ.find x = none ∧ GenGood Γ.decls x τx (evalGen ρ g)
-  | .forEach y it, Γ, F, ρ, x, τx, inv, h =>
-    forEach_good (fun ti hi => safe_expr hk it Γ F ρ ti inv hi) h
-  | .forRange y a b, Γ, F, ρ, x, τx, inv, h =>
-    forRange_good (fun ti hi => safe_expr hk a Γ F ρ ti inv hi) (fun ti hi => safe_expr hk b Γ F ρ ti inv hi) h
+  | .forEach y it, Γ, F, ρ, x, τx, inv, hb, hw, hv, h => by
+    simp only [wfGen] at hw
+    simp only [vtypesGen] at hv
+    exact forEach_good (fun ti hi => safe_expr hk it Γ F ρ ti inv hb hw hv hi) h
+  | .forRange y a b, Γ, F, ρ, x, τx, inv, hb, hw, hv, h => by
+    simp only [wfGen, Bool.and_eq_true] at hw
+    simp only [vtypesGen, List.all_append, Bool.and_eq_true] at hv
+    exact forRange_good (fun ti hi => safe_expr hk a Γ F ρ ti inv hb hw.1 hv.1 hi)
+      (fun ti hi => safe_expr hk b Γ F ρ ti inv hb hw.2 hv.2 hi) h
 theorem safe_and (hk : KeySound key) :
-    ∀ (es : List Expr) (Γ : TEnv) (F : Facts κ) (ρ : Env), Inv key Γ F ρ →
-      inferAnd key Γ F es = .ok () → evalAnd ρ es ≠ .noneDeref
-  | [], _, _, _, _, _ => by simp [evalAnd]
-  | e :: es, Γ, F, ρ, inv, h => by
-    exact and_cons_ne hk inv (fun ti hi => safe_expr hk e Γ F ρ ti inv hi)
-      (fun inv' h' => safe_and hk es Γ _ ρ inv' h') h
+    ∀ (es : List Expr) (Γ : TEnv) (F : Facts κ) (ρ : Env), Inv key Γ F ρ → Γ.backend = true →
+      wfList es = true → (vtypesAnd key Γ F es).all valTy = true → es ≠ [] →
+      inferAnd key Γ F es = .ok () → BoolOrIndex (evalAnd ρ es)
+  | [], _, _, _, _, _, _, _, hne, _ => absurd rfl hne
+  | e :: es, Γ, F, ρ, inv, hb, hw, hv, _, h => by
+    simp only [wfList, Bool.and_eq_true] at hw
+    simp only [vtypesAnd, List.all_append, Bool.and_eq_true] at hv
+    exact and_cons_good hk inv (fun ti hi => safe_expr hk e Γ F ρ ti inv hb hw.1 hv.1 hi)
+      (fun hne inv' h' => safe_and hk es Γ _ ρ inv' hb hw.2 hv.2 hne h') h
 theorem safe_or (hk : KeySound key) :
-    ∀ (es : List Expr) (Γ : TEnv) (F : Facts κ) (ρ : Env), Inv key Γ F ρ →
-      inferOr key Γ F es = .ok () → evalOr ρ es ≠ .noneDeref
-  | [], _, _, _, _, _ => by simp [evalOr]
-  | e :: es, Γ, F, ρ, inv, h => by
-    exact or_cons_ne hk inv (fun ti hi => safe_expr hk e Γ F ρ ti inv hi)
-      (fun inv' h' => safe_or hk es Γ _ ρ inv' h') h
+    ∀ (es : List Expr) (Γ : TEnv) (F : Facts κ) (ρ : Env), Inv key Γ F ρ → Γ.backend = true →
+      wfList es = true → (vtypesOr key Γ F es).all valTy = true → es ≠ [] →
+      inferOr key Γ F es = .ok () → BoolOrIndex (evalOr ρ es)
+  | [], _, _, _, _, _, _, _, hne, _ => absurd rfl hne
+  | e :: es, Γ, F, ρ, inv, hb, hw, hv, _, h => by
+    simp only [wfList, Bool.and_eq_true] at hw
+    simp only [vtypesOr, List.all_append, Bool.and_eq_true] at hv
+    exact or_cons_good hk inv (fun ti hi => safe_expr hk e Γ F ρ ti inv hb hw.1 hv.1 hi)
+      (fun hne inv' h' => safe_or hk es Γ _ ρ inv' hb hw.2 hv.2 hne h') h
 theorem safe_args (hk : KeySound key) :
-    ∀ (es : List Expr) (Γ : TEnv) (F : Facts κ) (ρ : Env), Inv key Γ F ρ →
-      inferArgs key Γ F es = .ok () → ArgsSafe (evalArgs ρ es)
-  | [], _, _, _, _, _ => by simp [evalArgs, ArgsSafe]
-  | e :: es, Γ, F, ρ, inv, h => by
-    exact args_cons_safe (fun ti hi => safe_expr hk e Γ F ρ ti inv hi)
-      (fun h' => safe_args hk es Γ F ρ inv h') h
+    ∀ (es : List Expr) (Γ : TEnv) (F : Facts κ) (ρ : Env), Inv key Γ F ρ → Γ.backend = true →
+      wfList es = true → (vtypesList key Γ F es).all valTy = true →
+      ∀ ts, inferArgs key Γ F es = .ok ts → ArgsGood Γ.decls ts (evalArgs ρ es)
+  | [], _, _, _, _, _, _, _, ts, h => by
+    simp only [inferArgs, Res.ok.injEq] at h
+    subst h
+    exact ArgsHave.nil
+  | e :: es, Γ, F, ρ, inv, hb, hw, hv, ts, h => by
+    simp only [wfList, Bool.and_eq_true] at hw
+    simp only [vtypesList, List.all_append, Bool.and_eq_true] at hv
+    exact args_cons_good (fun ti hi => safe_expr hk e Γ F ρ ti inv hb hw.1 hv.1 hi)
+      (fun ts' h' => safe_args hk es Γ F ρ inv hb hw.2 hv.2 ts' h') h
 theorem safe_parts (hk : KeySound key) :
-    ∀ (ps : List JPart) (Γ : TEnv) (F : Facts κ) (ρ : Env), Inv key Γ F ρ →
-      inferParts key Γ F ps = .ok () → evalParts ρ ps ≠ .noneDeref
-  | [], _, _, _, _, _ => by simp [evalParts]
-  | .lit s :: ps, Γ, F, ρ, inv, h => by
+    ∀ (ps : List JPart) (Γ : TEnv) (F : Facts κ) (ρ : Env), Inv key Γ F ρ → Γ.backend = true →
+      wfParts ps = true → (vtypesParts key Γ F ps).all valTy = true →
+      inferParts key Γ F ps = .ok () → StrOrIndex (evalParts ρ ps)
+  | [], _, _, _, _, _, _, _, _ => Or.inr ⟨[], rfl⟩
+  | .lit s :: ps, Γ, F, ρ, inv, hb, hw, hv, h => by
+    simp only [wfParts] at hw
+    simp only [vtypesParts] at hv
     simp only [inferParts] at h
-    exact parts_lit_ne (safe_parts hk ps Γ F ρ inv h)
-  | .fv e :: ps, Γ, F, ρ, inv, h => by
-    exact parts_fv_ne inv (fun ti hi => safe_expr hk e Γ F ρ ti inv hi)
-      (fun h' => safe_parts hk ps Γ F ρ inv h') h
+    exact parts_lit_good (safe_parts hk ps Γ F ρ inv hb hw hv h)
+  | .fv e :: ps, Γ, F, ρ, inv, hb, hw, hv, h => by
+    simp only [wfParts, Bool.and_eq_true] at hw
+    simp only [vtypesParts, List.all_append, Bool.and_eq_true] at hv
+    exact parts_fv_good inv (fun ti hi => safe_expr hk e Γ F ρ ti inv hb hw.1 hv.1 hi)
+      (fun h' => safe_parts hk ps Γ F ρ inv hb hw.2 hv.2 h') h
 end
 
 end AasVerif.Expr
